@@ -206,7 +206,7 @@ pub fn run(seed: u64, count: usize, thorough: bool, out: &mut Out) {
                 (p, None)
             }
             _ => {
-                let sh = gen::Shape { max_models: 1, max_chains: 2, max_residues: 3, max_altlocs: 1, max_atoms: 4, elements_known: true, ..Default::default() };
+                let sh = gen::Shape { max_models: 2, max_chains: 2, max_residues: 3, max_altlocs: 1, max_atoms: 4, elements_known: true, ..Default::default() };
                 let mut p = gen::structure(&mut rng, &sh);
                 // squeeze the atoms together so that connect_atoms finds pairs at bonding distance
                 let mut k = 0.0;
@@ -340,6 +340,32 @@ pub fn run(seed: u64, count: usize, thorough: bool, out: &mut Out) {
             if let (Some((pa, da)), Some((pc, dc))) = (a, c) {
                 copy_case(out, "reread", &pa, Some(pc));
                 out.case("C16", call("copyspec", vec![y("reread-diagnostics"), z(i as i128)]), l(vec![b(da == dc), y("t"), y("t")]), "prop:reread-diagnostics", true);
+            }
+        }
+    }
+    // ---- the same edit on a structure and on its clone keeps them equal: bonds inferred from the distances, on structures whose
+    //      atoms were not created in the order in which they stand (a read with blank and labelled alternate locations copies
+    //      the blank atoms last)
+    for k in 0..12usize {
+        let d = [1.23, 1.22, 1.33, 1.46, 1.53, 1.1][k % 6];
+        let e = [1.22, 1.43, 1.0, 1.54, 1.23, 1.48][(k / 2) % 6];
+        let mut t = String::new();
+        t.push_str(&format!("ATOM      1  C   ALA A   1    {:>8.3}{:>8.3}{:>8.3}  1.00 10.00           C  \n", 0.0, 0.0, 0.0));
+        t.push_str(&format!("ATOM      2  O  AALA A   1    {:>8.3}{:>8.3}{:>8.3}  0.50 10.00           O  \n", d, 0.0, 0.0));
+        t.push_str(&format!("ATOM      3  O  BALA A   1    {:>8.3}{:>8.3}{:>8.3}  0.50 10.00           O  \n", 0.0, e, 0.0));
+        if k % 2 == 1 {
+            t.push_str(&format!("ATOM      4  N   GLY A   2    {:>8.3}{:>8.3}{:>8.3}  1.00 10.00           N  \n", -1.33, 0.0, 0.0));
+        }
+        t.push_str("END\n");
+        if let Some((mut p, _)) = read(&t) {
+            if let Some(mut q) = crate::guarded(|| p.clone()) {
+                let same_before = p == q;
+                let _ = crate::guarded(|| p.connect_atoms());
+                let _ = crate::guarded(|| q.connect_atoms());
+                let n_bonds = p.bonds().count();
+                let same_after = p == q && full(&p) == full(&q);
+                out.case("C16", call("copyspec", vec![y("clone-same-edit"), z(k as i128)]), l(vec![b(same_before && same_after), y("t"), y("t")]), "prop:clone-same-edit", n_bonds > 0);
+                out.count(&format!("clone-same-edit:bonds:{}", n_bonds.min(3)));
             }
         }
     }
